@@ -347,6 +347,23 @@ def run(chk):
 
 
 def replay(path):
+    """re-runs the stored scenario (same seed and parameters) on the current tree"""
+    import logging
+    logging.disable(logging.CRITICAL)
     r = json.load(open(path))
-    print(json.dumps(r.get("first") or r.get("broken_theorems") or r.get("correspondence_breaks"), indent=1, default=str)[:3000])
-    return 1 if r.get("first") else 0
+    v = r.get("first")
+    if not v:
+        print(json.dumps(r.get("broken_theorems") or r.get("correspondence_breaks"), indent=1, default=str)[:3000])
+        return 0
+    i = v["input"]
+    print("scenario: %s" % json.dumps(i)[:400])
+    print("recorded: %s" % v["what"])
+    if i["op"] == "delivery-hand-off":
+        res = handoff(i["messages"], simlib.replay_chooser(i["schedule"]) if i["how"] == "dfs" else None, seed=0, lines=(i["how"] != "dfs"))
+        bad = res["status"] != "finished" or res["excs"] or res["order"] != list(range(i["messages"]))
+        print("now     : status=%s received=%s blocked=%s" % (res["status"], res["order"], res["blocked"]))
+        return 1 if bad else 0
+    res = scenario(i["seed"], i["messages"], i["segmentation"], i["line_level"], i.get("coalesced_with_cea", False))
+    now = verdict(res)
+    print("now     : %s" % (("VIOLATED: %s %s" % (now[0], json.dumps(now[1], default=str)[:300])) if now else "the statement holds on this run"))
+    return 1 if now else 0
